@@ -1903,6 +1903,18 @@ func ruleC19OneSessionFactory(c *Ctx) {
 			starts = append(starts, f)
 		}
 	}
+	// per-stream entry points: the gRPC method and whatever produces a stream's streamer (the factory closure and its helpers)
+	if f := u.Method(pkgServer, "AppEncryption", "Session"); f != nil {
+		starts = append(starts, f)
+	}
+	for _, g := range u.RepoFuncs {
+		if g.Pkg == nil || g.Pkg.Pkg.Path() != pkgServer || g.Signature.Results().Len() != 1 {
+			continue
+		}
+		if pt, ok := g.Signature.Results().At(0).Type().Underlying().(*types.Pointer); ok && typeIsNamed(pt.Elem(), pkgServer, "streamer") {
+			starts = append(starts, g)
+		}
+	}
 	if len(starts) < 2 {
 		c.unresolved("server entry points", "streamer.Stream / defaultHandler methods")
 		return
@@ -1971,10 +1983,13 @@ func ruleC13RecordLiteralsComplete(c *Ctx) {
 			if !isP || !typeIsNamed(pt.Elem(), pkgApp, "EnvelopeKeyRecord") {
 				return
 			}
+			fl := litFields(a)
+			if len(fl) == 0 {
+				return // the zero record (no field set) is not a conversion
+			}
 			n++
 			c.CallSites++
 			c.FuncsAnalysed[shortName(f)] = true
-			fl := litFields(a)
 			var problems []string
 			for _, fld := range need {
 				v, set := fl[fld]
